@@ -23,6 +23,17 @@ from sa import index
 from sa.consteval import EnumVal, Ext, Obj, Ref
 
 
+def _walk_own(fn):
+  """Nodes of a function body, not descending into nested functions / lambdas / classes."""
+  stack = list(fn.body)
+  while stack:
+    n = stack.pop()
+    yield n
+    for c in ast.iter_child_nodes(n):
+      if not isinstance(c, (ast.FunctionDef, ast.AsyncFunctionDef, ast.Lambda, ast.ClassDef)):
+        stack.append(c)
+
+
 class Opaque:
   """A value the interpreter knows nothing about."""
 
@@ -187,11 +198,15 @@ class Interp:
     self.calls_seen.add(func.fq)
     env = dict(closure_env or {})
     self._bind_params(func.node.args, func.module, args, kwargs, env, depth, func.fq)
+    is_gen = any(isinstance(n, (ast.Yield, ast.YieldFrom)) for n in _walk_own(func.node))
+    if is_gen:
+      # a generator is run eagerly: its value is the list of yielded items
+      env['<yielded>'] = []
     try:
       self.exec_block(func.node.body, func.module, env, depth, func)
     except _Return as r:
-      return r.value
-    return None
+      return env['<yielded>'] if is_gen else r.value
+    return env['<yielded>'] if is_gen else None
 
   def _bind_params(self, a: ast.arguments, module, args, kwargs, env, depth, name):
     pos = a.posonlyargs + a.args
@@ -239,6 +254,15 @@ class Interp:
     ev = lambda n: self.eval(n, module, env, depth)
     if isinstance(st, ast.Expr):
       if isinstance(st.value, ast.Constant):
+        return
+      if isinstance(st.value, ast.Yield) and '<yielded>' in env:
+        env['<yielded>'].append(ev(st.value.value) if st.value.value is not None else None)
+        return
+      if isinstance(st.value, ast.YieldFrom) and '<yielded>' in env:
+        v = ev(st.value.value)
+        if isinstance(v, Opaque):
+          raise NotInterpretable('yield from an opaque iterable')
+        env['<yielded>'].extend(list(v))
         return
       ev(st.value)
     elif isinstance(st, ast.Assign):
@@ -672,7 +696,7 @@ class Interp:
       if ci is not None:
         s = self.repo.resolve_attr(index.Sym('class', ci), attr)
         return self.from_sym(s, attr)
-    if isinstance(base, (dict, list, set, frozenset, str, tuple)):
+    if isinstance(base, (dict, list, set, frozenset, str, tuple, bytes)):
       return ('method', base, attr)
     if isinstance(base, Ext):
       return Ext(f'{base.name}.{attr}')
@@ -970,6 +994,15 @@ class Interp:
         return {'min': min, 'max': max, 'sum': sum, 'abs': abs, 'int': int,
                 'float': float, 'str': str, 'bool': bool, 'sorted': sorted,
                 'any': any, 'all': all, 'round': round}[b](*args, **kwargs)
+      if b in ('bytes', 'bytearray') and not kwargs and len(args) <= 1:
+        if not args:
+          return bytes() if b == 'bytes' else bytearray()
+        if isinstance(args[0], (int, bytes, bytearray)) and not isinstance(args[0], bool) or (
+            isinstance(args[0], list) and all(isinstance(x, int) for x in args[0])):
+          if isinstance(args[0], int) and args[0] > 1 << 16:
+            return Opaque(b)
+          return bytes(args[0]) if b == 'bytes' else bytearray(args[0])
+        return Opaque(b)
       if b == 'iter':
         return list(args[0])
       if b == 'next':
@@ -1010,6 +1043,8 @@ class Interp:
         return True
     if all(n in py for n in names):
       return False
+    if isinstance(v, (bytes, bytearray)) and all(n in py or n.split('.')[-1] == 'ndarray' for n in names):
+      return False  # raw bytes are never a numpy array
     return Opaque('isinstance')
 
   def _method(self, base, attr, args, kwargs, node):
@@ -1052,6 +1087,8 @@ class Interp:
           return getattr(base, attr)(*args, **kwargs)
       if isinstance(base, tuple) and attr in ('index', 'count'):
         return getattr(base, attr)(*args)
+      if isinstance(base, bytes) and attr in ('decode', 'startswith', 'endswith'):
+        return getattr(base, attr)(*args, **kwargs)
     except _Raise:
       raise
     except (KeyError, IndexError, ValueError) as e:
